@@ -202,6 +202,11 @@ size_t qurl_decode(char *str) {
                 break;
             }
             case '%': {
+                if (*(pEncPt + 1) == '\0' || *(pEncPt + 2) == '\0') {
+                    // truncated escape at the end of the string: keep it as is
+                    *pBinPt++ = *pEncPt;
+                    break;
+                }
                 *pBinPt++ = _q_x2c(*(pEncPt + 1), *(pEncPt + 2));
                 pEncPt += 2;
                 break;
@@ -444,7 +449,8 @@ size_t qhex_decode(char *str) {
     };
 
     char *pEncPt, *pBinPt = str;
-    for (pEncPt = str; *pEncPt != '\0'; pEncPt += 2) {
+    // a trailing odd digit is ignored rather than read together with the terminator
+    for (pEncPt = str; *pEncPt != '\0' && *(pEncPt + 1) != '\0'; pEncPt += 2) {
         *pBinPt++ = (HEXMAPTBL[(unsigned char) (*pEncPt)] << 4)
                 + HEXMAPTBL[(unsigned char) (*(pEncPt + 1))];
     }
